@@ -148,6 +148,8 @@ package cache
 //@   props C20 C08
 //@   requires [hooks-paired] (opt.PrunePreFn == nil) <==> (opt.PrunePostFn == nil)
 //@   ensures [inv] c != nil && cacheInv(c) && !held(c.mu) && len(c.entries) == 0 && c.preDepth == c.preDepth
+//@   -- building a cache leaves every map that existed before alone (the caches of a store do not share entries)
+//@   ensures [maps-frame] frame_maps(k, Ref)
 //@   ensures [settings] c.minAge == opt.Age && c.maxCount == opt.Count && c.pruneFn == opt.PruneFn && c.prunePreFn == opt.PrunePreFn && c.prunePostFn == opt.PrunePostFn
 
 //@ func (c *Cache) List() (keys []k, err error)
